@@ -21,7 +21,7 @@ RULE = ('Hypothesis generates parameter trees over the supported grammar (None/b
         'key of a second build from the same spec == key after pickle round trip (every protocol; stored and recomputed) == key of '
         'the list<->tuple / dict<->frozendict re-spelling == key of deserialize_task(json(serialize_task(t))) == key computed in '
         'the other shard processes, which run with different PYTHONHASHSEED; (2) injectivity - equal keys imply same type and '
-        'equal canonical parameter trees (sha1 collisions ignored); (3) LocalStorage.exists(key) does not raise. Non-trivial = '
+        'equal canonical parameter trees (sha1 collisions ignored); (3) LocalStorage.exists(key) does not raise - for a plain storage directory, one below a symlinked directory, and one that is itself a symlink. Non-trivial = '
         'tree depth >= 2 containing a nested task or enum, or a pair differing only in a value\'s type. Distinct = hash of spec.')
 ASSUMPTIONS = ['sha1 collisions ignored', '+0.0 vs -0.0 and dict-key order are not asserted in either direction',
                'NaN parameters are excluded from this property (nan != nan makes "same value" undefined)']
@@ -64,12 +64,29 @@ def key_facts(tree: dict, storage) -> tuple[list[core.Finding], str]:
 _STORAGE = None
 
 
+class _Storages:
+    """LocalStorage objects over the same kind of directory reached in three ways: plain, through a symlinked parent directory,
+    and as a symlink itself."""
+
+    def __init__(self):
+        from labtech.storage import LocalStorage
+        d = tempfile.mkdtemp(prefix='c07-', dir=os.environ.get('VERIF_SCRATCH'))
+        os.makedirs(os.path.join(d, 'real', 'inner'))
+        os.symlink('real', os.path.join(d, 'link'))
+        os.makedirs(os.path.join(d, 'plain'))
+        os.symlink(os.path.join(d, 'real', 'inner'), os.path.join(d, 'direct_link'))
+        self.all = [LocalStorage(os.path.join(d, 'plain')), LocalStorage(os.path.join(d, 'link', 'inner')),
+                    LocalStorage(os.path.join(d, 'direct_link'))]
+
+    def exists(self, key):
+        for st_ in self.all:
+            st_.exists(key)
+
+
 def storage():
     global _STORAGE
     if _STORAGE is None:
-        from labtech.storage import LocalStorage
-        d = tempfile.mkdtemp(prefix='c07-', dir=os.environ.get('VERIF_SCRATCH'))
-        _STORAGE = LocalStorage(d)
+        _STORAGE = _Storages()
     return _STORAGE
 
 
